@@ -26,7 +26,7 @@ def pAttrs : Nat → List String → Option (List (Nat × Bytes) × List String)
     pure ((us, db) :: r, ts)
   | _, _ => none
 
-def evalTxsig : List String → String
+def evalTxsigG (tie : Bool) : List String → String
   | variant :: ttype :: pver :: _lock :: nrefs :: rest =>
     match hexNat? ttype, nat? pver, nat? nrefs with
     | some tt, some pv, some nr =>
@@ -40,12 +40,19 @@ def evalTxsig : List String → String
             | some p =>
               let scripts := (attrs.filter (fun a => a.1 == 0x20)).map (·.2)
               let v := if variant == "bc" then Variant.bc else Variant.tx
-              Driver.RunOp.fmtRes (checkTxSig v .all (Driver.RunOp.oracles p) () ⟨tt, pv, refs, scripts, p.ps⟩)
+              if tie then
+                let rs := (verdicts v .all (Driver.RunOp.oracles p) () ⟨tt, pv, refs, scripts, p.ps⟩).map Driver.RunOp.fmtRes
+                let ds := rs.eraseDups
+                String.intercalate "|" (ds.toArray.qsort (· < ·)).toList
+              else Driver.RunOp.fmtRes (checkTxSig v .all (Driver.RunOp.oracles p) () ⟨tt, pv, refs, scripts, p.ps⟩)
             | none => "bad-op")
           | none => "bad-op")
         | none => "bad-op")
       | _ => "bad-op")
     | _, _, _ => "bad-op"
   | _ => "bad-op"
+
+def evalTxsig : List String → String := evalTxsigG false
+def evalTie : List String → String := evalTxsigG true
 
 end Driver.TxSigOp
